@@ -511,9 +511,24 @@ pred IsFKey(k rune) = vaxis.KeyF01 <= k && k <= vaxis.KeyF12
 pred IsCursorKey(k rune) = k == vaxis.KeyUp || k == vaxis.KeyDown || k == vaxis.KeyRight || k == vaxis.KeyLeft || k == vaxis.KeyEnd || k == vaxis.KeyHome
 pred IsEditKey(k rune) = k == vaxis.KeyInsert || k == vaxis.KeyDelete || k == vaxis.KeyPgUp || k == vaxis.KeyPgDown
 
+-- keys without a table entry are written as bytes assembled in a bytes.Buffer: one rune, or ESC and one rune. What the
+-- buffer holds is a ghost (count, first and second rune; ASSUMED to be what WriteRune/String do), and a string that is
+-- one control byte / ESC + one byte has sequence kind 3 / 4 with that byte as its final
+-- (the ghost fields bn, b0, b1 and the assumed contracts of WriteRune/String are declared with the other bytes.Buffer
+-- declarations in the root package's contract file)
+ufun unicode_IsLower(r rune) bool
+
 func encodeXterm(key vaxis.Key, deckpam bool, decckm bool) string
   mapcontents *
   requires mods: 0 <= key.Modifiers && key.Modifiers < 256
+  assume forall r in 97..123: unicode_IsLower(r) -- unicode.IsLower holds of the ASCII letters a..z
+  -- Ctrl+letter reaches the child as the control byte letter-96 (with Alt: ESC and that byte), which the host decoder
+  -- reads back as Ctrl+that letter -- except h, i, m, whose bytes are backspace, tab and enter in every legacy encoding
+  ensures C13_ctrl:    (97 <= key.Keycode && key.Keycode <= 122 && XM(key) / 4 % 2 == 1 && XM(key) / 2 % 2 == 0) ==>
+        (seqkind(result) == 3 && seqfinal(result) == key.Keycode - 96
+         && ((key.Keycode != 104 && key.Keycode != 105 && key.Keycode != 109) ==> C0Key(seqfinal(result)) == key.Keycode))
+  ensures C13_ctrlalt: (97 <= key.Keycode && key.Keycode <= 122 && XM(key) / 4 % 2 == 1 && XM(key) / 2 % 2 == 1) ==>
+        (seqkind(result) == 4 && seqfinal(result) == key.Keycode - 96)
   ensures C13_fkeys:  (XM(key) == 0 && IsFKey(key.Keycode)) ==> (HostKey(result) == key.Keycode && HostMods(result) == 0)
   ensures C13_cursor: (XM(key) == 0 && IsCursorKey(key.Keycode)) ==> (HostKey(result) == key.Keycode && HostMods(result) == 0 && seqkind(result) == (decckm ? 2 : 1))
   ensures C13_edit:   (XM(key) == 0 && IsEditKey(key.Keycode)) ==> (HostKey(result) == key.Keycode && HostMods(result) == 0)
